@@ -53,13 +53,16 @@ def _file_of(pkg, d):
 SIMPLE_PRIMS = ["int32", "int64", "uint16", "float32", "float64", "string", "bool", "uint8"]
 
 COMPATIBLE = ["add_optional_field", "remove_optional_field", "reorder_fields", "add_step", "add_def", "rename_with_alias"]
-PARTIAL = ["add_field", "remove_field", "widen_field", "make_optional", "widen_vector_field", "widen_step"]
+PARTIAL = ["add_field", "remove_field", "widen_field", "make_optional", "widen_vector_field", "widen_step", "make_required"]
 FREE = ["retype_field", "add_protocol", "change_enum"]  # valid packages, but not evolution-safe
 
 
-def apply_edit(pkg: M.Package, rng: Rng, kind: str):
-    """Applies one edit in place. Returns a description string, or None if not applicable."""
+def apply_edit(pkg: M.Package, rng: Rng, kind: str, only=None):
+    """Applies one edit in place. Returns a description string, or None if not applicable.
+    only: names of the records that record edits are restricted to."""
     recs = _records(pkg)
+    if only is not None:
+        recs = [r for r in recs if r.name in only]
     if kind == "add_optional_field" and recs:
         r = rng.choice(recs)
         n = _fresh_member([f for f, _ in r.fields], rng)
@@ -141,6 +144,21 @@ def apply_edit(pkg: M.Package, rng: Rng, kind: str):
         n, t = r.fields[i]
         r.fields[i] = (n, Opt(t))
         return "make_optional %s.%s" % (r.name, n)
+    if kind == "make_required":
+        # T? -> T (the inverse of "making a field optional"): a null of the previous version becomes the zero value
+        cands = [("f", r, i) for r in recs for i, (_, t) in enumerate(r.fields) if isinstance(t, Opt) and isinstance(t.inner, Prim)]
+        if only is None:
+            cands += [("s", p, i) for p in _protocols(pkg) for i, (_, t, _) in enumerate(p.steps) if isinstance(t, Opt) and isinstance(t.inner, Prim)]
+        if not cands:
+            return None
+        what, d, i = rng.choice(cands)
+        if what == "f":
+            n, t = d.fields[i]
+            d.fields[i] = (n, t.inner)
+        else:
+            n, t, st = d.steps[i]
+            d.steps[i] = (n, t.inner, st)
+        return "make_required %s.%s" % (d.name, n)
     if kind == "add_step":
         ps = _protocols(pkg)
         if not ps:
@@ -248,16 +266,30 @@ def evolve(pkg: M.Package, rng: Rng, n: int, kinds) -> tuple:
     return new, log
 
 
-def with_versions(pkg: M.Package, rng: Rng, n_versions: int, partial: bool) -> M.Package:
+RECORD_EDITS = ["add_optional_field", "remove_optional_field", "reorder_fields", "add_field", "remove_field", "widen_field", "make_optional", "widen_vector_field", "make_required"]
+
+
+def with_versions(pkg: M.Package, rng: Rng, n_versions: int, partial: bool, must_edit=()) -> M.Package:
     """Treat pkg as the oldest version; evolve it n_versions times; the newest package lists all
-    its predecessors under `versions:`.  Returns the newest package."""
+    its predecessors under `versions:`.  Returns the newest package.
+    must_edit: names of records that each get at least one record edit in every evolution step."""
     chain = [pkg]
     kinds = COMPATIBLE + (PARTIAL if partial else [])
     cur = pkg
+    log = []
     for i in range(n_versions):
-        cur, _ = evolve(cur, rng.fork("evolve", i), rng.randint(1, 4), kinds)
+        cur, l = evolve(cur, rng.fork("evolve", i), rng.randint(1, 4), kinds)
+        r2 = rng.fork("must", i)
+        for name in must_edit:
+            for _ in range(8):
+                d = apply_edit(cur, r2, r2.choice([k for k in RECORD_EDITS if k in kinds]), only=(name,))
+                if d:
+                    l.append(d)
+                    break
+        log.append(l)
         chain.append(cur)
     newest = chain[-1]
+    newest.edit_log = log
     newest.versions = []
     for i, old in enumerate(chain[:-1]):
         old = copy.deepcopy(old)
